@@ -11,9 +11,11 @@ import (
 	"os"
 	"os/exec"
 	"path/filepath"
+	"reflect"
 	"regexp"
 	"strings"
 	"sync"
+	"sync/atomic"
 	"time"
 
 	jsonrpc "github.com/filecoin-project/go-jsonrpc"
@@ -33,7 +35,14 @@ func init() {
 // hostServer: RPC server with the svc handlers (+ reverse client option); prints "ADDR <addr>".
 func hostServer(args []string) int {
 	s := svc.New()
-	rpc := jsonrpc.NewServer(jsonrpc.WithReverseClient[svc.RevAPI]("R"), jsonrpc.WithServerPingInterval(200*time.Millisecond))
+	opts := []jsonrpc.ServerOption{jsonrpc.WithReverseClient[svc.RevAPI]("R"), jsonrpc.WithServerPingInterval(200 * time.Millisecond)}
+	if len(args) > 0 && args[0] == "tracer" {
+		var traced int64
+		opts = append(opts, jsonrpc.WithTracer(func(method string, params []reflect.Value, results []reflect.Value, err error) {
+			atomic.AddInt64(&traced, 1)
+		}))
+	}
+	rpc := jsonrpc.NewServer(opts...)
 	rpc.Register("S", s)
 	ts := httptest.NewServer(rpc)
 	fmt.Printf("ADDR %s\n", ts.Listener.Addr().String())
